@@ -11,7 +11,7 @@
 //                              description B, `end` (format of harness/mjbuild.h).  Both are compiled; the state is applied
 //                              to both; both are stepped <nstep> times; body poses (xpos, xmat), site positions and sensor
 //                              data are compared for every body / site NAME of B that also exists in A.
-//          -> `maxdev=<g> dev0=<deviation of the initial poses> nmatched=<k> nqA=.. nqB=.. numdev=<g> refs=<same|kinds whose by-name references point to
+//          -> `maxdev=<g> dev0=<deviation of the initial poses> nmatched=<k> nqA=.. nqB=.. numdev=<g> unstable=<number of bad-qpos/qvel/qacc warnings> refs=<same|kinds whose by-name references point to
 //             differently named objects> static=<same|f1,f2,...>` | `error ...`
 //   defaults <seed>            values through (nested) default classes vs set explicitly     -> same output format
 //   attach <seed>              a child spec attached by mjs_attach vs the same bodies inline
@@ -249,8 +249,11 @@ static void compare_traj(mjModel* mA, mjModel* mB, int nstep, const StateIn* st,
   }
   if (do_static) compare_static(mA, mB); else static_diff[0] = 0;
   compare_refs(mA, mB);
-  printf("maxdev=%.3g dev0=%.3g nmatched=%d nqA=%d nqB=%d numdev=%.3g refs=%s static=%s\n", mx, mx0, nmatched, (int)mA->nq, (int)mB->nq,
-         static_numeric_dev(mA, mB), refs_diff[0] ? refs_diff : "same", (do_static && !static_diff[0]) ? "same" : (do_static ? static_diff : "n/a"));
+  // a simulation that blew up (bad qpos / qvel / qacc, followed by an automatic reset) is not comparable
+  int nwarn = dA->warning[mjWARN_BADQPOS].number + dA->warning[mjWARN_BADQVEL].number + dA->warning[mjWARN_BADQACC].number +
+              dB->warning[mjWARN_BADQPOS].number + dB->warning[mjWARN_BADQVEL].number + dB->warning[mjWARN_BADQACC].number;
+  printf("maxdev=%.3g dev0=%.3g nmatched=%d nqA=%d nqB=%d numdev=%.3g unstable=%d refs=%s static=%s\n", mx, mx0, nmatched, (int)mA->nq, (int)mB->nq,
+         static_numeric_dev(mA, mB), nwarn, refs_diff[0] ? refs_diff : "same", (do_static && !static_diff[0]) ? "same" : (do_static ? static_diff : "n/a"));
   mj_deleteData(dA); mj_deleteData(dB);
 }
 
